@@ -237,3 +237,22 @@ func H_C08_concurrent_small_lru() {
 	vAssert(p1 == w1 && p2 == w2, "C08 later calls on the cache the concurrent calls left: results as without a cache")
 	vReach("end")
 }
+
+// two goroutines validating the same type for the first time (both miss, or one finds what the other
+// has just published), over every cache kind that is safe for concurrent use
+func H_C08_concurrent_same_type_cold() {
+	a, b := vStr("a"), vStr("b")
+	c1 := func() string { return vErrText(Struct(&vT4{P: a, Q: "q", R: "r"})) }
+	c2 := func() string { return vErrText(Struct(&vT4{P: "p", Q: b})) }
+	cacheStructType = NewLRU(vndChoice("cap", 3))
+	var g1, g2 string
+	vGo(func() { g1 = c1() })
+	vGo(func() { g2 = c2() })
+	vJoin()
+	p1, p2 := c1(), c2()
+	cacheStructType = vNoCache{}
+	w1, w2 := c1(), c2()
+	vAssert(g1 == w1 && g2 == w2, "C08 first sight of one type in two goroutines: results as without a cache")
+	vAssert(p1 == w1 && p2 == w2, "C08 later calls on the cache the two first sights left: results as without a cache")
+	vReach("end")
+}
